@@ -72,7 +72,7 @@ Loop(acc, i, atcap, now) ==
                  ELSE Loop([acc EXCEPT !.rc = @ + 1], i + 1, atcap, now))
            ELSE Loop(acc, i + 1, atcap, now)
       [] OTHER -> Loop(acc, i + 1, atcap, now)
-Next(q, now) ==
+QNext(q, now) ==
   IF q.prog = "Finished" THEN [q |-> q, ret |-> "Finished", peer |-> 0]
   ELSE LET r == Loop([q |-> q, rc |-> 0, ret |-> "", peer |-> 0], 1, AtCapacity(q), now) IN
        IF r.ret # "" THEN [q |-> r.q, ret |-> r.ret, peer |-> r.peer]
@@ -86,7 +86,7 @@ TakeSucc(q, i, acc) == IF i > Len(q.ps) \/ Len(acc) >= q.cfg.nr THEN acc
 Result(q) == TakeSucc(q, 1, <<>>)
 
 QStep(q, op, now) ==
-  CASE op.o = "next"       -> LET r == Next(q, now) IN [q |-> r.q, ret |-> IF r.ret = "contact" THEN <<"contact", r.peer>> ELSE <<r.ret, 0>>]
+  CASE op.o = "next"       -> LET r == QNext(q, now) IN [q |-> r.q, ret |-> IF r.ret = "contact" THEN <<"contact", r.peer>> ELSE <<r.ret, 0>>]
     [] op.o = "on_success" -> [q |-> OnSuccess(q, op.p, op.news), ret |-> <<"ok", 0>>]
     [] op.o = "on_failure" -> [q |-> OnFailure(q, op.p), ret |-> <<"ok", 0>>]
     [] op.o = "tick"       -> [q |-> q, ret |-> <<"ok", 0>>]
